@@ -333,6 +333,38 @@ def run(chk):
         for e, tests in conds:
             if not want <= tests:
                 chk.add(Finding("R10-queue", "R10-queue::%s::%s" % (fid, ",".join(sorted(want - tests))), "%s queues an element for deletion without testing %s: the protection by the used-set / the emptiness test applies only at one of the two queueing sites" % (fid, sorted(want - tests)), b.where(e[4])))
+    # ---------------------------------------------------------------- R10-empty
+    # a FUNCTION / GROUP counts as empty exactly when every reference list it can hold is absent or empty
+    from . import guards as _g
+    EMPTY_EXCEPT = {"Module.group/Group.function_list/FunctionList.name_list": "documented in the source: a group without objects and sub groups is not useful, whatever functions it lists"}
+    nemp = 0
+    for fid, holder in (("cleanup::functions::is_function_empty", "Module.function/"), ("cleanup::groups::is_group_empty", "Module.group/")):
+        fb = prog.bodies.get(fid)
+        if fb is None:
+            chk.add(Finding("R10-empty", "R10-empty::anchor::" + fid, fid + " not found"))
+            continue
+        Sf = sym.Analyzer(prog, opaque=[r"cleanup::.*"]).summary(fid)
+        F = _g.value_formula(fb, Sf, 0)
+        want = []
+        for (k, pth, info) in refs.sites():
+            if pth.startswith(holder) and pth not in EMPTY_EXCEPT and pth.count("/") == 2:
+                seg = pth.split("/")
+                field = seg[1].split(".")[-1]
+                lst = seg[2].split(".")[-1]
+                want.append((field, lst))
+        nemp += len(want)
+        if F is None:
+            chk.add(Finding("R10-empty", "R10-empty::shape::" + fid, "%s: the condition under which it returns true cannot be derived" % fid, fb.where()))
+            continue
+        E = True
+        for field, lst in sorted(want):
+            one = ["or", ["e", "discr(arg1.%s)" % field, ["Some"], False], ["and", ["e", "discr(arg1.%s)" % field, ["Some"], True], ["b", "is_empty(arg1.%s.%s)" % (field, lst), True]]]
+            E = one if E is True else ["and", E, one]
+        eq = _g.equivalent(F, E)
+        if eq is not True:
+            got = sorted(_g.atoms_of(F))
+            chk.add(Finding("R10-empty", "R10-empty::" + fid, "%s does not return true exactly when all of %s are absent or empty (tests found: %s): %s" % (fid, ", ".join(f for f, _ in sorted(want)), got, "elements that still hold references are removed, or empty ones are kept" if eq is False else "comparison not possible"), fb.where()))
+    chk.rule("R10-empty", "reference lists of FUNCTION / GROUP that the emptiness predicates must examine (absent or empty, all of them)", nemp, floor=9)
     chk.rule("R10-queue", "deletion-queue push sites guarded by both 'not in used-set' and 'is empty'", nq, floor=4)
 
     # ---------------------------------------------------------------- R10-order
